@@ -465,6 +465,11 @@ func (f *Frame) enterLoop(li *loopInfo, cur *State, rc *runCtx) {
 			if _, wr := written[k]; wr {
 				inv = false
 			}
+			if everything && !isGhostKey(k) && !strings.HasPrefix(k, "IT:") {
+				// the body calls something that may modify everything: a base read from the heap is not
+				// the same object in every iteration
+				inv = false
+			}
 		}
 		if !inv {
 			// a write to an object that the iteration itself allocated (possibly to a struct embedded in it)
@@ -536,8 +541,15 @@ func (f *Frame) enterLoop(li *loopInfo, cur *State, rc *runCtx) {
 			}
 			u.assume(cur, T{fmt.Sprintf("(forall ((r!q Int)) (! (=> (and (<= (root r!q) %s) %s) (= (select %s r!q) (select %s r!q))) :pattern ((select %s r!q))))", li.pre.alloc.S, u.kindCond(k), nh.S, old.S, nh.S), SBool})
 		}
-		keys = nil
-		li.havocked = nil
+		// ghost fields are not part of "everything": the ones the body changes are framed like any other key
+		var gk []string
+		for _, k := range keys {
+			if isGhostKey(k) {
+				gk = append(gk, k)
+			}
+		}
+		keys = gk
+		li.havocked = gk
 	}
 	for _, k := range keys {
 		srt := written[k]
